@@ -6,6 +6,7 @@ import (
 	"errors"
 	"fmt"
 	"github.com/xuperchain/xupercore/bcs/ledger/xledger/state"
+	aclu "github.com/xuperchain/xupercore/kernel/permission/acl/utils"
 	"math/big"
 	"sort"
 	"sync"
@@ -413,6 +414,21 @@ func (t *Miner) confirmBlockForMiner(ctx xctx.XContext, block *lpb.InternalBlock
 		return err
 	}
 
+	// The node's pending transactions were authorised against the rules in force before this
+	// block. Access-control rules are read outside a transaction's read set, so a block that
+	// changes them conflicts with no pending transaction. After a received block the pool is
+	// rolled back and verified again (Walk); after an own block it was not: an operation whose
+	// signers the block had just stripped of their authority stayed pending and went into the
+	// node's next block, which every other node refuses. When the block wrote an access-control
+	// bucket the pool is refreshed the same way: a walk to the state's own block rolls the
+	// pending transactions back and re-admits those that still verify.
+	if changesAccessControl(block) {
+		if werr := t.ctx.State.Walk(block.Blockid, false); werr != nil {
+			ctx.GetLog().Warn("refresh of the pending transactions after an own block failed",
+				"err", werr, "blockId", utils.F(block.Blockid))
+		}
+	}
+
 	// 共识确认区块
 	err = t.ctx.Consensus.ProcessConfirmBlock(blkAgent)
 	if err != nil {
@@ -423,6 +439,20 @@ func (t *Miner) confirmBlockForMiner(ctx xctx.XContext, block *lpb.InternalBlock
 
 	ctx.GetLog().Trace("confirm block for miner succ", "blockId", utils.F(block.Blockid))
 	return nil
+}
+
+// changesAccessControl tells whether a block writes one of the buckets the access-control
+// rules live in (account rules, method rules, contract to account mapping).
+func changesAccessControl(block *lpb.InternalBlock) bool {
+	for _, tx := range block.Transactions {
+		for _, out := range tx.TxOutputsExt {
+			switch out.Bucket {
+			case aclu.GetAccountBucket(), aclu.GetContractBucket(), aclu.GetContract2AccountBucket():
+				return true
+			}
+		}
+	}
+	return false
 }
 
 // 尝试检查同步节点账本到目标区块
